@@ -148,11 +148,13 @@ class C03(DecProp):
     thm_module = "H263V.Thm.C03"
     rule = ("P lines: an intra picture (high-entropy content) followed by 1..3 predicted pictures of the same size (small sizes of every class, and QCIF / CIF / 320x240 pairs): every macroblock type mix (not coded, INTER, INTER+Q, "
             "INTER4V, INTER4V+Q, INTRA, INTRA+Q), differentials over -16..15.5 so that vectors point outside every edge and wrap, disposable pictures, truncation after "
-            "any macroblock; real decoder vs. Lean model, planes by hash.  Non-trivial: at least one predicted picture decodes; distinct by text.")
+            "any macroblock; `noref`: histories that start without a reference picture (disposable or ordinary predicted pictures of INTRA macroblocks only, then pictures that need "
+            "prediction, an I picture, further predicted pictures, one reader each); real decoder vs. Lean model, planes by hash.  Non-trivial: at least one predicted picture decodes; distinct by text.")
 
     def cases(self, tier, rng):
         return (core.gen_lines("inter", rng.randint(1, 10 ** 6), core.q(tier, 500, 8000))
-                + core.gen_lines("realsize", rng.randint(1, 10 ** 6), core.q(tier, 20, 400)))
+                + core.gen_lines("realsize", rng.randint(1, 10 ** 6), core.q(tier, 20, 400))
+                + core.gen_lines("noref", rng.randint(1, 10 ** 6), core.q(tier, 40, 600)))
 
     def nontrivial(self, case, model_out):
         return len(re.findall(r"(^P|\|) ok ", model_out)) >= 2
@@ -183,13 +185,14 @@ class C04(DecProp):
     id = "C04"
     thm_module = "H263V.Thm.C04"
     rule = ("P lines: histories of 2..9 operations over {I, P, disposable P, rejected picture, clean-up, size change} with temporal references drawn so that they collide "
-            "(equal to the reference's, +1, +128 mod 256); pictures pairwise distinct; after every call the last and the reference picture (get_last_picture / "
+            "(equal to the reference's, +1, +128 mod 256), and `noref` histories that start with disposable / predicted pictures of INTRA macroblocks only (no reference yet); pictures pairwise distinct; after every call the last and the reference picture (get_last_picture / "
             "get_reference_picture) are compared with the model, and the abstract rule (reference := new picture unless disposable) is replayed on the implementation's own "
             "output.  Non-trivial: the history contains a disposable picture followed by another accepted picture; distinct by text.")
     assumptions = ["temporal references are below 0x8000 (parsed values are at most 10 bits)"]
 
     def cases(self, tier, rng):
-        return core.gen_lines("hist", rng.randint(1, 10 ** 6), core.q(tier, 600, 10000))
+        return (core.gen_lines("hist", rng.randint(1, 10 ** 6), core.q(tier, 600, 10000))
+                + core.gen_lines("noref", rng.randint(1, 10 ** 6), core.q(tier, 60, 1000)))
 
     def nontrivial(self, case, model_out):
         ops = split_ops(model_out)
